@@ -81,7 +81,22 @@ CHECKS['C18'] = dict(
     text='30 scenarios with -j 1 (10 inputs incl. ones where fresh variables and set-like lookups matter x 3 strategies) are run under the virtual one-worker pool for every schedule with up to 1 deviation (thorough 2: producer run-ahead, late main loop, every k) in 8 (16) separate interpreters with PYTHONHASHSEED 0..7; the sequence of accepted token sequences and the output bytes must be identical over all executions of a scenario. REAL tier: 16 runs of bin/ddsmt -j 1 with a real command that delays its k-th invocation, under two hash seeds, must give byte-identical outputs.',
     note=SCHED_NOTE + ' Process ids are irrelevant to the observations (only file contents are compared).', design='3/C18')
 
+GRAPH_NOTE = ('Trusted: the argument of DESIGN 2.8 that every sequence of accepted inputs of any run (any deterministic command, strategy, schedule) is a path of the explored rewrite graph; the seed family ddv/seeds.py (145 quick seeds: generated depth-1 formulas per theory, occurs-check equalities, hand-written command-level scripts); the harness serialisation as state key. Coverage is exhaustive within the stated depth / state caps from these seeds, not beyond (caps are reported in the evidence).')
+
+CHECKS['C03'] = dict(
+    level='model_checking', engine='GRAPH',
+    technique='explicit-state search of the rewrite graph whose transitions are the real mutators (hierarchical proposals and ddmin group steps); SCC / self-loop detection; deterministic per-call work budgets',
+    text='From each of 145 (thorough: all generated) seeds the rewrite graph is explored breadth-first in two regimes - all mutators to depth 2 (thorough 3), and without the pure deleters/creators up to a state cap - with transitions computed by the real mutators, apply_simp, reduplicate and collect_information, including the ddmin group steps built by the real TaskGenerator, for both --replace-by-variable-mode settings (330 k states, 8.4 M transitions quick). Oracles: no proposal leaves the input unchanged; the explored graph has no strongly connected component with more than one state once the edges explained by the listed open findings (KF-C03-1/2/5) are removed - those are printed as KNOWN-FINDING; every filter/mutations/apply call stays within a count budget of 60(n+10)^2 Node hash calls and constructions (a CPU-time backstop turns a hang into a verdict).',
+    note=GRAPH_NOTE, design='3/C03')
+CHECKS['C15'] = dict(
+    level='model_checking', engine='GRAPH',
+    technique='explicit-state search of the rewrite graph; per-proposal oracle: apply, render with all four renderers, re-read with ddSMT and the reference reader, fresh-declaration rules',
+    text='At every state within depth 2 (thorough 3) of every seed, every proposal of every enabled mutator at every node (1.2 M proposals, 3 M renderings quick; ddmin group steps included) must refer only to nodes / keys of that state, be applicable without error, produce leaves that are single tokens, and its result rendered by the checking, default, pretty and wrap renderers must be read back by ddSMT and by the independent reference reader as exactly the tree kept in memory; every declaration in fresh_vars must declare a symbol that no well-formed declaration or binder of the state introduces and must stand before the first command using it.',
+    note=GRAPH_NOTE, design='3/C15')
+
 ENGINES = [
+    dict(name='GRAPH', path='ddv/graph.py', serves_properties=['C03', 'C04', 'C15'],
+         kind_free_text='explicit-state breadth-first search of the rewrite graph (real mutators as transition relation), SCC detection, per-call work meter'),
     dict(name='SCHED', path='ddv/sched.py', serves_properties=['C01', 'C02', 'C05', 'C13', 'C18'],
          kind_free_text='stateless deviation-bounded explorer (ddv/explore.py) over the real ddsmt main() under a virtual process pool and a modelled command'),
     dict(name='ENUM', path='ddv/sexp.py', serves_properties=['C07', 'C08', 'C09', 'C11', 'C12', 'C13', 'C14', 'C16', 'C17'],
